@@ -91,6 +91,7 @@ type CacheCfg struct {
 	CostFn       bool      `json:"cost_fn"`   // Config.Cost = func(v) v.Cost ; Sets pass 0
 	ShouldUpdate int       `json:"should_update"`
 	TickerSec    int64     `json:"ticker_sec"`
+	BucketSecs   int64     `json:"bucket_secs,omitempty"` // width of an expiry bucket (0: built-in)
 	KeyKind      int       `json:"key_kind"`
 	Hasher       int       `json:"hasher"`
 	Keys         []KeySpec `json:"keys"`
@@ -354,6 +355,9 @@ func GenPlan(profName string, seed uint64) *Plan {
 	}
 	c.TickerSec = int64(g.pick([]int{0, 1, 1, 2, 3, 5, 10, 20}))
 	c.MaxStripes = g.rng(1, 3)
+	if g.p(400) {
+		c.BucketSecs = int64(g.pick([]int{1, 2, 3, 7, 10}))
+	}
 	c.ClockOffset = int64(g.n(1<<30)) * int64(g.rng(1, 40))
 
 	// costs: each key has a base cost; cost-monotone runs always use it
